@@ -22,3 +22,7 @@ reg("C19", "stateful property-based testing against a reference model: a recordi
     "Exploration: generated histories with one or two recording CallbackListener subclasses (second one registered/removed mid-history, either order); mirror equality after every step (containment as sets, connections, references, top instance, data), before-state check at each first announcement, no phantom announcement after refused calls (veto by the namespace manager rolls the shadow back), and a differential run of the same history without listeners (same outcome trace and final state). Bounded; no absence claim.",
     "Trusted: the shadow model in vf/props/c19.py, vf/ops.py, Hypothesis. Containment mirrored as sets (API carries no positions); bundle attributes are not announced kinds.",
     "DESIGN.md 3 C19")
+reg("C10", "stateful property-based testing against a linear-scan reference model: naming-relevant operation histories under both policies, refusal predicted for every edit, lookups compared with scans",
+    "Exploration: generated histories of naming edits (constructors with name/identifier, add/remove/re-add, rename, un-name, set/delete/pop of .NAME and EDIF.identifier, clone then more edits) over small colliding alphabets under DEFAULT and EDIF; for every edit the scan model predicts refused/accepted (both directions: ghosts and misses), every involved scope is checked for uniqueness/legality, and every exact get_X(parent, value, key) answer is compared with a scan (all scopes again at the end). Bounded; no absence claim.",
+    "Trusted: scan model and EDIF identifier rule in vf/props/c10.py (written from the documentation), vf/ops.py, Hypothesis. One policy per history.",
+    "DESIGN.md 3 C10")
